@@ -33,11 +33,12 @@ abbrev FuncId := Nat
 /-- what `get_name_in_module(module, qualname)` finds -/
 inductive Obj where
   | cls (c : ClassId)                        -- a class
-  | func (f : FuncId)                        -- a plain (or builtin) function
+  | func (f : FuncId)                        -- a Python function
+
   | boundMethod (f : FuncId)                 -- types.MethodType (classmethod accessed through the class)
   | prop (fget : Option FuncId) (fset fdel : Bool)   -- a property object
   | wrapped (outer : FuncId) (inner : Obj)   -- has `__wrapped__` (functools.wraps); inspect.unwrap follows it
-  | other                                    -- any non-type, non-function value (int, module, instance …)
+  | other                                    -- any non-type, non-function value (int, module, instance, a builtin function …)
   deriving Repr, Inhabited
 
 /-- abstract import system: `none` = the module cannot be imported or an attribute on the path is missing -/
